@@ -79,9 +79,27 @@ theorem informational_refused_after_response (s : Streams) (k : Nat) (f : List H
     (s.sendInterimInformationalHeaders k f).1 = s ∧ ∃ e, (s.sendInterimInformationalHeaders k f).2 = .error e :=
   sendInformational_refused s k f h
 
--- FINDING (see ConnResetPNOTES.md): `send_push_promise` does not look at the state of the stream it
--- queues the PUSH_PROMISE on.  Full statement that does NOT hold:
---   "a PUSH_PROMISE is only queued on a parent whose state is open or half-closed (remote)".
+/-- **PUSH_PROMISE is only queued on a parent we may still send on** (finding F29 of this work, repaired:
+    `Send::send_push_promise` used not to look at the parent's state and wrote PUSH_PROMISE after
+    END_STREAM / RST_STREAM).  If `send_push_promise` succeeds, the parent is not send-closed; for a
+    request stream (not idle, not a reserved (local) pushed stream) that is exactly RFC 9113 §6.6:
+    the parent is open or half-closed (remote) — `Spec.Lifecycle.canSend`. -/
+theorem push_promise_only_on_sendable_parent (s : Streams) (parent k promised : Nat) (f : List Hpack.Field)
+    (h : (s.sendPushPromise parent k promised f).2 = .ok ())
+    (hi : H2V.Lemmas.Comp.phase (s.stream parent).state ≠ .idle)
+    (hr : H2V.Lemmas.Comp.phase (s.stream parent).state ≠ .reservedLocal) :
+    (s.stream parent).state.isSendClosed = false ∧
+    Spec.Lifecycle.canSend (H2V.Lemmas.Comp.phase (s.stream parent).state) = true :=
+  ⟨sendPushPromise_ok_parent s parent k promised f h,
+   canSend_of_not_sendClosed _ (sendPushPromise_ok_parent s parent k promised f h) hi hr⟩
+
+/-- **…and refused otherwise**: on a send-closed parent (END_STREAM sent or queued, reset, failed,
+    half-closed (local)) `send_push_promise` fails and queues nothing. -/
+theorem push_promise_refused_on_closed_parent (s : Streams) (parent k promised : Nat) (f : List Hpack.Field)
+    (h : (s.stream parent).state.isSendClosed = true) :
+    (s.sendPushPromise parent k promised f).1 = s ∧ ∃ e, (s.sendPushPromise parent k promised f).2 = .error e :=
+  sendPushPromise_send_closed s parent k promised f h
+
 /-- the stream layer of a server that has accepted one request on stream 1 (END_STREAM received, the
     application holds the `SendResponse`): what `recv_headers` + `next_incoming` leave behind -/
 def serverWithRequest : Streams :=
@@ -93,21 +111,18 @@ def serverWithRequest : Streams :=
                ids := [(1, 0)], nextKey := 1 },
     refs := 2 }
 
-/-- **Counterexample (real defect): PUSH_PROMISE is written on a closed stream.**  Server with one
-    accepted request on stream 1; the response with END_STREAM is queued and written by `poll_complete`
-    (stream 1 is `Closed(EndStream)`, its queue empty); then `push_request` on the still held
-    `SendResponse`: the next `pop_frame` hands the codec a PUSH_PROMISE *on stream 1* (promising
-    stream 2) — RFC 9113 §6.6 allows PUSH_PROMISE only on an open or half-closed (remote) stream.
-    (Reproduced on the real code, `h2v run`: `cn_respond 0 200 1`, `cn_poll` → `tx=H:1:5:…`;
-    `cn_push 0 /x`, `cn_poll` → `tx=PP:1:2:…`.) -/
-theorem push_promise_on_closed_stream_counterexample :
-    let s := run serverWithRequest [.refSendResponse 0 [] true, .pollComplete 10 {} {} "c"]
-    let s' := (s.refSendPushPromise 0 true []).1
-    (s.stream 0).id = 1 ∧ (s.stream 0).state.inner = .closed .endStream ∧ (s.stream 0).pendingSend = [] ∧
-    (match (Streams.popFrame 4 s' 16384).2 with
+/-- non-vacuity of both: before the response a push is accepted and comes out of `pop_frame` on stream 1;
+    after the response with END_STREAM (the history that used to put `PP:1:2` on the closed stream 1) the
+    push is refused and `pop_frame` has nothing to send -/
+example :
+    (match (Streams.popFrame 4 (serverWithRequest.refSendPushPromise 0 true []).1 16384).2 with
      | some (.pushPromise 1 2 _) => true
-     | _ => false) = true := by
-  decide
+     | _ => false) = true ∧
+    (let s := run serverWithRequest [.refSendResponse 0 [] true, .pollComplete 10 {} {} "c"]
+     (s.stream 0).state.isSendClosed = true ∧ (s.refSendPushPromise 0 true []).2 = .error .inactiveStreamId ∧
+     (match (Streams.popFrame 4 (s.refSendPushPromise 0 true []).1 16384).2 with
+      | none => true
+      | _ => false) = true) := by decide
 
 end H2V.Props.C04
 
@@ -120,4 +135,5 @@ end H2V.Props.C04
 #print axioms H2V.Props.C04.trailers_need_send_streaming
 #print axioms H2V.Props.C04.headers_refused_where_rfc_forbids
 #print axioms H2V.Props.C04.informational_refused_after_response
-#print axioms H2V.Props.C04.push_promise_on_closed_stream_counterexample
+#print axioms H2V.Props.C04.push_promise_only_on_sendable_parent
+#print axioms H2V.Props.C04.push_promise_refused_on_closed_parent
